@@ -163,7 +163,41 @@ PeekStim ==
     : md \in {"const", "hz"}, rr \in 0..MaxLog, at \in {1, 2, Frames \div 2}, m \in {1, 4},
       x \in {-1} }
   \cup { WithPeek(ExecX("hz", rr, LAMBDA i : ExhHz(3, rr, i), 2), at, 3) : rr \in 0..MaxLog, at \in {1, 3} }
-Stimuli == ConstStim \cup HzConstStim \cup RampStim \cup CycStim \cup ExhStim \cup PeekStim
+\* round 5: the noise hash chain (Osc.tla NoiseStages) at counters where its rare operations cross 2^64.
+\* Witness counters as groups of six decimal digits; the ASSUME verifies on exact naturals that every operation
+\* of the chain has a witness that crosses there (so none is exercised on one side of 2^64 only) and that the
+\* usual small seeds cross nowhere.  Each witness becomes executions: started AT the counter and a few frames
+\* BEFORE it (the run reaches it by itself), original + restart + clone.
+RECURSIVE BDec6(_)
+BDec6(g) == IF Len(g) = 0 THEN BZero
+            ELSE BAdd(BMul(BDec6(SubSeq(g, 1, Len(g) - 1)), BFromNat(1000000)), BFromNat(g[Len(g)]))
+NoiseWitness ==
+  { << << 43101, 728223 >>, << "a3", "sq", "m1", "mx" >> >>,                     \* the three smallest counters whose
+    << << 47374, 347511 >>, << "a3" >> >>,                                        \* `+ P3` crosses
+    << << 56657, 942616 >>, << "a3" >> >>,
+    << << 6, 578093, 194148, 406037 >>, << "a2", "shl", "sq", "m1" >> >>,         \* `+ P2` crosses (product = 2^64 - P2)
+    << << 8, 688407, 970579, 4009 >>, << "a2", "mx" >> >>,
+    << << 11, 865318, 259704, 290539 >>, << "a2" >> >>,
+    << << 5, 582927, 809630, 876629 >>, << "a2", "mx" >> >>,
+    << << 230, 204178 >>, << "lo31ones" >> >>,                                    \* all 31 output bits set
+    << << 2377, 687826 >>, << "lo31ones" >> >>,
+    << << 18, 446744, 73709, 551615 >>, << "shl" >> >>,                           \* u64::MAX
+    << << 4294, 967295 >>, << "sq", "m1", "mx" >> >> }
+NoiseBandsInhabited ==
+  /\ \A w \in NoiseWitness : \A i \in 1..Len(w[2]) : NoiseLabelOK(BDec6(w[1]), w[2][i])
+  /\ \A o \in NoiseOpNames \cup {"lo31ones"} : \E w \in NoiseWitness : \E i \in 1..Len(w[2]) : w[2][i] = o
+  /\ NoiseCross(BZero) = {} /\ NoiseCross(<< 1 >>) = {}
+  /\ BXor(<< 5, 3 >>, << 6 >>) = << 3, 3 >> /\ BXor(<< 7, 1 >>, << 7, 1 >>) = << >>
+ASSUME NoiseBandsInhabited
+NzNext(i) == [ev |-> "next", a |-> [inst |-> i]]
+NoiseExec(w, at) ==
+  << [ev |-> "reset", comp |-> "noise",
+      cfg |-> [seed |-> [n |-> 0, l |-> BSub(BDec6(w[1]), BFromNat(at))], cross |-> w[2], at |-> at]] >>
+  \o [i \in 1..(at + 2) |-> NzNext(0)]
+  \o << [ev |-> "clone", a |-> [from |-> 0, inst |-> 2]], [ev |-> "restart", a |-> [inst |-> 1]] >>
+  \o [i \in 1..(at + 2) |-> NzNext(1)] \o << NzNext(2), NzNext(0), [ev |-> "peek", a |-> [inst |-> 1, m |-> 2]] >>
+NoiseStim == { NoiseExec(w, at) : w \in NoiseWitness, at \in {0, 1, 5} }
+Stimuli == ConstStim \cup HzConstStim \cup RampStim \cup CycStim \cup ExhStim \cup PeekStim \cup NoiseStim
 
 WriteStimuli ==
   IF "STIM_OUT" \in DOMAIN IOEnv
